@@ -6,7 +6,7 @@ reference-count drops are merged at collection points.  Not decided: that memory
 """
 import re
 
-from . import lib
+from . import lib, c06
 from .lib import CheckError
 
 DRAIN = r"(alloc::vec::\{impl Vec<T,A>\}::(clear|truncate|drain|set_len)$|core::mem::(take|replace|swap)$)"
@@ -86,6 +86,15 @@ def run(F, R, ctx):
         R.inst("C19.b", "Heap::%s can run a full mark" % nm, p is not None,
                "Heap::%s no longer reaches Heap::mark_and_sweep_new: storage allocated through it is only ever reclaimed "
                "by the weak (handle-count) collection, never when it is merely unreachable" % nm, fn.loc(), sample=True)
+    # ---- g
+    R.rule("C19.g", "globals that are redefined become reclaimable: SymbolMap::add hands the previous slot of every "
+                    "replaced name to FreeList::add_shadowed (the recycler's candidate list), and the recycler drains it")
+    c06.shadow_bookkeeping_rule(F, R, "C19.g")
+    rc = F.one(r"\{impl GlobalSlotRecycler\}::recycle$")
+    rd = set((e[1], e[2]) for _, e in lib.family_events(F, rc, "fld"))
+    R.inst("C19.g", "GlobalSlotRecycler::recycle consumes shadowed_slots and refills free_list",
+           ("FreeList", "shadowed_slots") in rd and ("FreeList", "free_list") in rd,
+           "GlobalSlotRecycler::recycle no longer drains FreeList.shadowed_slots into FreeList.free_list", rc.loc(), sample=True)
     # ---- d
     tok = F.adt("RootToken")
     R.inst("C19.d", "RootToken has a destructor", bool(tok["drop"]),
